@@ -474,33 +474,35 @@ theorem decodeDecimal_safe (a b : Nat) : Safe (decodeDecimal a b) := by
 
 theorem utcOfBytes_safe (b : List Nat) : Safe (utcOfBytes b) := by
   unfold utcOfBytes
-  dsimp only
   split
-  · exact Safe.err (by decide)
-  · refine Safe.bind (decodeDecimal_safe _ _) (fun _ _ => ?_)
-    refine Safe.bind (decodeDecimal_safe _ _) (fun _ _ => ?_)
-    refine Safe.bind (decodeDecimal_safe _ _) (fun _ _ => ?_)
-    refine Safe.bind (decodeDecimal_safe _ _) (fun _ _ => ?_)
-    refine Safe.bind (decodeDecimal_safe _ _) (fun _ _ => ?_)
-    refine Safe.bind (decodeDecimal_safe _ _) (fun _ _ => ?_)
-    refine Safe.bind (timeOfFields_safe _ _ _ _ _ _) (fun _ _ => ?_)
-    split
-    · exact Safe.pure _
+  · split
     · exact Safe.err (by decide)
+    · refine Safe.bind (decodeDecimal_safe _ _) (fun _ _ => ?_)
+      refine Safe.bind (decodeDecimal_safe _ _) (fun _ _ => ?_)
+      refine Safe.bind (decodeDecimal_safe _ _) (fun _ _ => ?_)
+      refine Safe.bind (decodeDecimal_safe _ _) (fun _ _ => ?_)
+      refine Safe.bind (decodeDecimal_safe _ _) (fun _ _ => ?_)
+      refine Safe.bind (decodeDecimal_safe _ _) (fun _ _ => ?_)
+      refine Safe.bind (timeOfFields_safe _ _ _ _ _ _) (fun _ _ => ?_)
+      split
+      · exact Safe.pure _
+      · exact Safe.err (by decide)
+  · exact Safe.err (by decide)
 
 theorem generalizedOfBytes_safe (b : List Nat) : Safe (generalizedOfBytes b) := by
   unfold generalizedOfBytes
-  dsimp only
   split
+  · split
+    · exact Safe.err (by decide)
+    · refine Safe.bind (decodeDecimal_safe _ _) (fun _ _ => ?_)
+      refine Safe.bind (decodeDecimal_safe _ _) (fun _ _ => ?_)
+      refine Safe.bind (decodeDecimal_safe _ _) (fun _ _ => ?_)
+      refine Safe.bind (decodeDecimal_safe _ _) (fun _ _ => ?_)
+      refine Safe.bind (decodeDecimal_safe _ _) (fun _ _ => ?_)
+      refine Safe.bind (decodeDecimal_safe _ _) (fun _ _ => ?_)
+      refine Safe.bind (decodeDecimal_safe _ _) (fun _ _ => ?_)
+      exact timeOfFields_safe _ _ _ _ _ _
   · exact Safe.err (by decide)
-  · refine Safe.bind (decodeDecimal_safe _ _) (fun _ _ => ?_)
-    refine Safe.bind (decodeDecimal_safe _ _) (fun _ _ => ?_)
-    refine Safe.bind (decodeDecimal_safe _ _) (fun _ _ => ?_)
-    refine Safe.bind (decodeDecimal_safe _ _) (fun _ _ => ?_)
-    refine Safe.bind (decodeDecimal_safe _ _) (fun _ _ => ?_)
-    refine Safe.bind (decodeDecimal_safe _ _) (fun _ _ => ?_)
-    refine Safe.bind (decodeDecimal_safe _ _) (fun _ _ => ?_)
-    exact timeOfFields_safe _ _ _ _ _ _
 
 theorem dUtcTime_post (inp : List Nat) : DPostK 2 inp dUtcTime (fun _ => True) := by
   unfold dUtcTime
@@ -770,33 +772,15 @@ theorem extCheck_post {inp : List Nat} {k : CertKind} {f : ExtFields} (hf : f.In
   split
   · rename_i bcCrit ca pl kuCrit bits sc skid hbc hku hsk
     have hskid := hf.1 _ _ hsk
-    cases k with
-    | dac =>
-      simp only
-      split
-      · exact Post.err (by decide)
-      · rename_i ac akid hak
-        have hakid := hf.2 _ _ hak
-        repeat' (first | exact Post.err (by decide) | split)
-        exact Post.ok ⟨hskid, fun a h => by injection h with h; exact h ▸ hakid⟩
-    | pai =>
-      simp only
-      split
-      · exact Post.err (by decide)
-      · rename_i ac akid hak
-        have hakid := hf.2 _ _ hak
-        repeat' (first | exact Post.err (by decide) | split)
-        exact Post.ok ⟨hskid, fun a h => by injection h with h; exact h ▸ hakid⟩
-    | paa =>
-      simp only
-      repeat' (first | exact Post.err (by decide) | split)
-      refine Post.ok ⟨hskid, fun a h => ?_⟩
+    split
+    · refine Post.ok ⟨hskid, fun a h => ?_⟩
       cases hak : f.akid with
       | none => simp [hak] at h
       | some x =>
         obtain ⟨c, a'⟩ := x
         simp only [hak, Option.map_some, Option.some.injEq] at h
         exact h ▸ hf.2 _ _ hak
+    · exact Post.err (by decide)
   · exact Post.err (by decide)
 
 theorem dExtensions_post {inp : List Nat} {fuel : Nat} (hfuel : inp.length < fuel) (k : CertKind) :
